@@ -1278,6 +1278,132 @@ theorem c09_append_partial (t t' : TState) (axis cap : Nat) (oshape : List Nat)
           simp only [Nat.zero_add, sizes_getD, Nat.add_sub_cancel_left]
           exact c2 idx' hv
 
+theorem set_eq_insert_erase (l : List Nat) (k x : Nat) (hk : k < l.length) :
+    l.set k x = (l.eraseIdx k).insertIdx k x := by
+  induction k generalizing l with
+  | zero => cases l with
+    | nil => simp at hk
+    | cons a as => simp
+  | succ k ih =>
+    cases l with
+    | nil => simp at hk
+    | cons a as =>
+      simp only [List.set_cons_succ, List.eraseIdx_cons_succ, List.insertIdx_succ_cons]
+      rw [ih as (by simpa using hk)]
+
+/-- **C09.T4 append = `numpy.concatenate` (partial: element-wise write path).**  Under the
+hypotheses of `c09_append_partial`, the tensor after `append(axis, other)` denotes exactly
+`concatenate([a, other], axis)` — the reference the driver evaluates (`NArr.concat`), with
+`other` the array whose element at `idx'` is `1000 + position of idx'`. -/
+theorem c09_append_concat_partial (t t' : TState) (axis cap : Nat) (oshape : List Nat)
+    (hb : t.view.base = 0) (hl : t.view.len = t.store.length)
+    (hno : mayOverlap t.view.dims = false) (hwf : WF t.view)
+    (hslow : ¬ (isContiguous (resizeDim t.view.dims axis
+        ((sizes t.view.dims).getD axis 0 + oshape.getD axis 0)) = true ∧
+      t.store.length + numel oshape = minDataLen (resizeDim t.view.dims axis
+        ((sizes t.view.dims).getD axis 0 + oshape.getD axis 0))))
+    (h : appendOp t axis cap oshape = .ok t') :
+    NArr.concatOk axis t.arr.shape oshape = true ∧
+    t'.arr = NArr.concat axis t.arr
+      (NArr.ofFn oshape (fun idx => 1000 + (idxs oshape).idxOf idx)) := by
+  obtain ⟨hd, hold, hnew⟩ := c09_append_partial t t' axis cap oshape hb hl hno hwf hslow h
+  -- facts read off the successful run
+  have hfacts : axis < t.view.dims.length ∧ t.view.dims.length = oshape.length ∧
+      (∀ k, k < t.view.dims.length → k = axis ∨ (sizes t.view.dims).getD k 0 = oshape.getD k 0) := by
+    unfold appendOp at h
+    rw [materialize_owned t hb hl hno hwf] at h
+    simp only [bind, Except.bind] at h
+    split at h
+    · cases h
+    · rename_i hsm
+      split at h
+      · cases h
+      · rename_i hax
+        have hsm' : (t.view.dims.length == oshape.length &&
+            (List.range t.view.dims.length).all
+              (fun k => k == axis || (sizes t.view.dims).getD k 0 == oshape.getD k 0)) = true := by
+          cases hx : (t.view.dims.length == oshape.length &&
+            (List.range t.view.dims.length).all
+              (fun k => k == axis || (sizes t.view.dims).getD k 0 == oshape.getD k 0)) with
+          | true => rfl
+          | false => rw [hx] at hsm; exact absurd rfl hsm
+        simp only [Bool.and_eq_true, beq_iff_eq, List.all_eq_true, List.mem_range,
+          Bool.or_eq_true] at hsm'
+        exact ⟨by omega, hsm'.1, hsm'.2⟩
+  obtain ⟨hk, hlen, hall⟩ := hfacts
+  have hsh : t.arr.shape = sizes t.view.dims := rfl
+  refine ⟨?_, ?_⟩
+  · unfold NArr.concatOk
+    rw [hsh]
+    simp only [Bool.and_eq_true, beq_iff_eq, List.all_eq_true, List.mem_range, Bool.or_eq_true,
+      sizes_length]
+    exact ⟨hlen, fun k hk' => hall k hk'⟩
+  · have hosh := shape_match_set (sizes t.view.dims) oshape axis (by simpa using hlen)
+      (fun k hk' => hall k (by simpa using hk'))
+    rw [← sizes_resizeDim, ← sizes_resizeDim] at hosh
+    obtain ⟨G1, G2, _⟩ := append_geometry t.view.dims axis (oshape.getD axis 0) hk
+    rw [← sizes_getD] at G1 G2
+    unfold NArr.concat
+    have ht' : t'.arr = NArr.ofFn (sizes t'.view.dims) (fun idx => t'.arr.get idx) := by
+      unfold TState.arr denote
+      apply NArr.ofFn_congr
+      intro idx hidx
+      rw [NArr.get_ofFn _ _ _ hidx]
+    rw [ht', hd, sizes_resizeDim, hsh]
+    apply NArr.ofFn_congr
+    intro idx hidx
+    simp only [NArr.ofFn_shape]
+    rw [← sizes_resizeDim] at hidx
+    have hlidx := validIdx_length hidx
+    rw [sizes_length] at hlidx
+    have hndlen : (resizeDim t.view.dims axis
+        ((sizes t.view.dims).getD axis 0 + oshape.getD axis 0)).length = t.view.dims.length := by
+      have := congrArg List.length (sizes_resizeDim t.view.dims axis
+        ((sizes t.view.dims).getD axis 0 + oshape.getD axis 0))
+      simpa using this
+    rw [hndlen] at hlidx
+    by_cases hi : idx.getD axis 0 < (sizes t.view.dims).getD axis 0
+    · rw [if_pos hi]
+      -- an index of the grown tensor below the old size is an old index
+      have hvold : validIdx (sizes t.view.dims) idx = true := by
+        rw [validIdx_iff] at hidx ⊢
+        refine ⟨by simpa using hlidx, ?_⟩
+        intro k hk'
+        have := hidx.2 k (by rw [sizes_resizeDim]; simpa using hk')
+        by_cases hka : k = axis
+        · subst hka; exact hi
+        · rw [sizes_resizeDim, getD_set_ne _ _ _ _ (Ne.symm hka)] at this
+          exact this
+      exact hold idx hvold
+    · rw [if_neg hi]
+      -- … and one above is a shifted index of `other`
+      have hvnew : validIdx oshape (idx.set axis (idx.getD axis 0 - (sizes t.view.dims).getD axis 0)) = true := by
+        rw [validIdx_iff] at hidx ⊢
+        refine ⟨by simp [hlidx, hlen], ?_⟩
+        intro k hk'
+        have hk'' : k < t.view.dims.length := by omega
+        have := hidx.2 k (by rw [sizes_resizeDim]; simpa using hk'')
+        by_cases hka : k = axis
+        · subst hka
+          rw [sizes_resizeDim, getD_set_self _ _ _ (by simpa using hk'')] at this
+          rw [getD_set_self _ _ _ (by omega)]
+          omega
+        · rw [sizes_resizeDim, getD_set_ne _ _ _ _ (Ne.symm hka)] at this
+          rw [getD_set_ne _ _ _ _ (Ne.symm hka)]
+          rcases hall k hk'' with h' | h'
+          · exact absurd h' hka
+          · rw [← h']; exact this
+      have hshift : shiftIdx axis ((sizes t.view.dims).getD axis 0)
+          (idx.set axis (idx.getD axis 0 - (sizes t.view.dims).getD axis 0)) = idx := by
+        unfold shiftIdx
+        rw [set_eq_insert_erase _ _ _ (by omega), List.eraseIdx_insertIdx_self,
+          getD_insertIdx_self _ _ _ (by simp [List.length_eraseIdx, hlidx, hk]; omega)]
+        have : (sizes t.view.dims).getD axis 0 + (idx.getD axis 0 - (sizes t.view.dims).getD axis 0) =
+            idx.getD axis 0 := by omega
+        rw [this]
+        exact insertIdx_eraseIdx_getD idx axis 0 (by omega)
+      rw [NArr.get_ofFn _ _ _ hvnew, ← hnew _ hvnew, hshift]
+
 /-- Non-vacuity: an owned 2×3 tensor with row stride 4 (room for one more column) takes the
 element-wise write path; evaluated result. -/
 example : (appendOp ⟨[0, 1, 2, 3, 4, 5, 6, 7], ⟨0, 8, [(2, 4), (3, 1)]⟩⟩ 1 8 [2, 1]).map TState.arr =
